@@ -57,7 +57,7 @@ pub fn all_scenarios() -> Vec<(&'static str, &'static str, &'static str)> {
     // left out of the determinism self-test's sample
 }
 
-const A_MONO: &str = "instants passed to one agent never decrease from call to call";
+const A_MONO: &str = "instants passed to one agent never decrease from call to call, except that while nothing is due some polls carry an instant up to 2 s earlier than the latest one (stale clock sample), for which the only admissible answer is the same WaitUntil";
 const A_MS: &str = "configure_timeout arguments are whole milliseconds with rto 1..=60000 ms, retransmits 0..=8, last timeout 0..=60000 ms";
 const A_FIT: &str = "messages handed to the agent or built by the builder fit the 16-bit length field";
 const A_MID: &str = "a configure_timeout issued in the middle of a schedule keeps the count of retransmissions already made";
